@@ -12,3 +12,13 @@ Theorem c17_pull_same_in_both_modes : forall e q b, wf_env e -> wf_req q ->
 Proof. exact k_pull_modes. Qed.
 Print Assumptions c17_pull_same_in_both_modes.
 
+
+(** run level: when no operation asks for a chunk size of zero, nothing panics at all on any run of a
+    known-size kind, in either overflow mode (the environment's mode is arbitrary) *)
+From OCI.proofs Require Import RunC16.
+Theorem c17_no_panic_known_kinds : forall e, known_env e -> forall progs, wf_progs progs -> plain_progs progs ->
+  (forall t, Forall op_nz (progs t)) -> forall sched,
+  nowrap (c_labels (exec e (init progs) sched)) ->
+  chk_no_panic (c_trace (exec e (init progs) sched)) = true.
+Proof. exact known_C17_no_panic. Qed.
+Print Assumptions c17_no_panic_known_kinds.
